@@ -108,7 +108,7 @@ func genCases(seed int64, n int) []Case {
 			}
 		case cls == 12: // other operations over SSE
 			c.Kind = "sse"
-			c.Op = []string{"query", "defer", "badquery", "suberr"}[(i/20)%4]
+			c.Op = []string{"query", "defer", "badquery", "suberr", "opreject"}[(i/20)%5]
 			c.KAus = keepAlives[r.Intn(4)]
 			c.K = 1 + r.Intn(6)
 			c.Release = releases[r.Intn(len(releases))]
@@ -153,6 +153,9 @@ func genCases(seed int64, n int) []Case {
 			c.Disconnect = []int{0, 1, 17, 120, 200, 400, 1000, 5000, 30000}[r.Intn(9)]
 		}
 		// derived without consuming the case's randomness
+		if c.Kind == "mp" && c.Shape == "none" && (i/20)%2 == 0 {
+			c.Op = "opreject" // an accepted operation answered with an errors-only payload
+		}
 		if c.Disconnect < 0 && i%5 == 2 {
 			c.SlowW = true
 		}
@@ -433,6 +436,13 @@ func serverFor(c *Case) *httptest.Server {
 		}
 		return fmt.Errorf("internal system error")
 	})
+	// an application gate that answers an accepted operation itself, with an errors-only payload
+	h.AroundOperations(func(ctx context.Context, next graphql.OperationHandler) graphql.ResponseHandler {
+		if st := stateFrom(ctx); st != nil && st.c.Op == "opreject" {
+			return graphql.OneShot(graphql.ErrorResponse(ctx, "refused by the application"))
+		}
+		return next(ctx)
+	})
 	h.AroundResponses(func(ctx context.Context, next graphql.ResponseHandler) *graphql.Response {
 		resp := next(ctx)
 		if st := stateFrom(ctx); st != nil && resp != nil {
@@ -494,6 +504,8 @@ func queryFor(c *Case) (q string, gated []string) {
 			return `{ q1 q2 items(n:3) { id name } }`, nil
 		case "badquery":
 			return `{ nosuchfield }`, nil
+		case "opreject":
+			return `{ q1 q2 }`, nil
 		case "defer":
 			q = fmt.Sprintf(`{ items(n:%d) { id ... @defer(label:"d") { slow(ms:1) } } }`, c.K)
 			for i := 0; i < c.K; i++ {
@@ -696,6 +708,10 @@ func runCase(c *Case, o *kids.Case) {
 	produced := append([]prodRec(nil), st.produced...)
 	recovered := append([]string(nil), st.recovered...)
 	st.mu.Unlock()
+	if c.Op == "opreject" && len(produced) == 0 {
+		produced = []prodRec{{NErrors: 1}}
+		o.Count("operation_level_error_responses", 1)
+	}
 	if c.Op == "suberr" && len(produced) == 0 {
 		// executor.DispatchOperation answers an error raised while the subscription resolver is invoked
 		// with graphql.OneShot(...) that does not pass the response middleware: one payload, data null
